@@ -95,10 +95,14 @@ CLAIMED = {
         text="Every BufferQueue operation is proved (Lean kernel, no axioms beyond propext/Quot.sound) to act on the "
              "concatenation of the buffers exactly as the property states, for all queues, sets, patterns and histories; "
              "the model is tied to buffer_queue.rs by running both on an exhaustive cover of op × buffer-boundary "
-             "placements plus seeded random histories, and a flat-string oracle is evaluated on the real code.",
+             "placements plus seeded random histories, and a flat-string oracle is evaluated on the real code. eat, which the Rust "
+             "runs on BYTES, is additionally modelled literally at byte level (buffers_exhausted / consumed_from_last over the UTF-8 "
+             "encoding, commit through pop_front with its char-boundary check) and proved equal to the character-level model for "
+             "ALL patterns under the two comparators html5ever uses, never reaching a panic site (Props/C13Bytes.lean: "
+             "C13_eat_bytes_eq_chars_all, C13_eat_bytes_no_panic; witnesses: an arbitrary comparator can commit inside a character).",
         note="Trusted: Lean kernel; the hand-written model + the bq correspondence (differential, coverage reported in "
-             "evidence); eat proved at character level for ASCII patterns with ==/ASCII-case-insensitive eq; tendril "
-             "primitives are C11's subject."),
+             "evidence); eat proved at character level and bridged to the byte-level loop for ==/ASCII-case-insensitive eq "
+             "(the comparator the harness passes additionally reads the queue while eat runs); tendril primitives are C11's subject."),
 }
 
 CLAIMED["C14"] = dict(
